@@ -39,13 +39,18 @@ Variable dz : list dzop -> list bytes.
 Variable cfg : wcfg.
 
 (* writeFrame (write.go:245-316): header fields, key for clients, rsv1 only on text/binary *)
-Definition write_frame (s : wst) (fin fl : bool) (opc : N) (p : bytes) : wst :=
+Definition write_frame_raw (s : wst) (fin fl : bool) (opc : N) (p : bytes) : wst :=
   let client := role_eqb (wc_role cfg) Client in
   let h := {| h_fin := fin; h_rsv1 := fl && is_data_first opc; h_rsv2 := false; h_rsv3 := false; h_opc := opc;
               h_masked := client; h_key := if client then keys (w_nkey s) else zero_key;
               h_plen := N.of_nat (length p) |} in
   {| w_nkey := if client then S (w_nkey s) else w_nkey s; w_hist := w_hist s;
      w_close_sent := w_close_sent s || (opc =? 8); w_out := w_out s ++ [(h, p)] |}.
+
+(* RFC 6455 §5.5.1 as writeFrame enforces it: once a Close frame has been written only Pings and Pongs are
+   written; any other frame is refused and nothing reaches the wire *)
+Definition write_frame (s : wst) (fin fl : bool) (opc : N) (p : bytes) : wst :=
+  if w_close_sent s && negb ((opc =? 9) || (opc =? 10)) then s else write_frame_raw s fin fl opc p.
 
 (* state of one open message writer: (connection state, opcode still to use, flate on, trim tail) *)
 Record mw := { m_s : wst; m_opc : N; m_flate : bool; m_tail : bytes; m_hist : list dzop }.
